@@ -293,6 +293,7 @@ def judgeSkips (nch : Nat) (pat : String) (parts : List (List String)) (obs : St
     | some (.ok fl), e :: rows =>
       let want := (derefPositions 0 (patternOps pat.toList)).map fun p => (chunk (fl.w * nch) fl.h fl.px).getD p []
       if rows.map parseHex ≠ want then fail "scanline-rows-after-skips-equal-full-read"
+      else if e ≠ "0" ∧ e ≠ "1" then fail "scanline-iterator-begin-end-comparisons"
       else if decide (e = "1") ≠ decide (pat.length = fl.h) then fail "scanline-iterator-end"
       else "ok"
     | some _, _ :: _ => "ok"          -- read_image refuses the file: nothing to compare with
